@@ -294,6 +294,30 @@ def c19(a):
                     c.violation("the real database diverges from the model on a TLC-generated history "
                                 "(returned version / path taken)", {"event": {"history": full, "ttl": ttl,
                                                                               "mismatches": e["mismatches"]}})
+    # the concatenated (Android tzdata) database: same protocol without the name index, one file for all zones
+    c.add_mc(tlc_mc("ConcatCache.tla", "MC_ConcatCache_quick.cfg" if quick else "MC_ConcatCache_thorough.cfg",
+                    os.path.join(wd, "mc3"), timeout=3 * 3600))
+    c.add_mc(tlc_mc("ConcatCache.tla", "MC_ConcatCache_live.cfg", os.path.join(wd, "mc4")))
+    for cfgname, ttl in (("ConcatCacheSim.cfg", 2), ("ConcatCacheSim_ttl1.cfg", 1)):
+        items = tlc_simulate("ConcatCacheSim.tla", cfgname, os.path.join(wd, "sim"), num=500 if quick else 6000, depth=150,
+                             seed=a.seed + 1)
+        hp = os.path.join(wd, f"hist-concat-ttl{ttl}.jsonl")
+        with open(hp, "w") as f:
+            for it in items:
+                f.write(it + "\n")
+        s = run_driver(binary, "c19replay", os.path.join(wd, f"replay-concat{ttl}"), a.tier, a.seed,
+                       ["--histories", hp, "--ttl", str(ttl), "--db", "concat", "--stem", "c19replay"])
+        c.add_summary(s)
+        for fpath in s["files"]:
+            for line in open(fpath):
+                e = json.loads(line)
+                if e["ok"]:
+                    c.traces += 1
+                else:
+                    full = json.loads(items[e["hid"]])
+                    c.violation("the real concatenated database diverges from ConcatCache.tla on a TLC-generated history "
+                                "(returned version / path taken)", {"event": {"history": full, "ttl": ttl, "db": "concat",
+                                                                              "mismatches": e["mismatches"]}})
     # Engine A: concurrent executions validated against the model
     s = run_driver(binary, "c19stress", os.path.join(wd, "stress"), a.tier, a.seed)
     c.add_summary(s)
